@@ -115,10 +115,16 @@ func (fr *Frame) callFunc(st *State, f *ssa.Function, args []*Term, binds []*Ter
 		return r
 	}
 	ct := eng.contractOf(f)
-	if ct != nil && !ct.inline && !ct.opaque && (len(ct.ensures) > 0 || len(ct.requires) > 0 || ct.hasAssgn || ct.trusted || ct.modular) {
+	if tr := os.Getenv("GOVC_TRACE"); tr != "" && strings.Contains(f.String(), tr) {
+		fmt.Fprintf(os.Stderr, "TRACE call %s ct=%v key=%s\n", f.String(), ct != nil, funcPkgPath(f)+"::"+contractKey(f))
+		if ct != nil {
+			fmt.Fprintf(os.Stderr, "TRACE   ensures=%d requires=%d trusted=%v inline=%v opaque=%v keeps=%v\n", len(ct.ensures), len(ct.requires), ct.trusted, ct.inline, ct.isOpaque(), ct.keeps)
+		}
+	}
+	if ct != nil && !ct.inline && !ct.isOpaque() && (len(ct.ensures) > 0 || len(ct.requires) > 0 || ct.hasAssgn || ct.trusted || ct.modular) {
 		return fr.applyContract(st, ct, f, f.Signature, nil, args, in, c)
 	}
-	if (ct == nil || !ct.opaque) && eng.canInline(fr, f, ct) {
+	if (ct == nil || !ct.isOpaque()) && eng.canInline(fr, f, ct) {
 		return fr.inline(st, f, args, binds, in)
 	}
 	ws := eng.frames.of(f, c)
@@ -309,9 +315,16 @@ func (fr *Frame) applyContract(st *State, ct *Contract, f *ssa.Function, sig *ty
 	}
 	// 1. preconditions
 	env0 := mkEnv(st)
+	guard := True
 	for i, cl := range ct.requires {
 		g := env0.boolExpr(cl.expr)
 		if cl.kind == "assume" {
+			continue
+		}
+		if len(cl.ids) > 0 && !sharesID(cl.ids, eng.topIDs()) && fr.safeIDs() == nil {
+			// a precondition stated for another property: this caller does not have to
+			// establish it, and then may rely on the postconditions only where it holds
+			guard = And(guard, g)
 			continue
 		}
 		ids := eng.topIDs()
@@ -367,9 +380,23 @@ func (fr *Frame) applyContract(st *State, ct *Contract, f *ssa.Function, sig *ty
 	env1.bindResults(sig, res)
 	for _, cl := range ct.ensures {
 		g := env1.boolExpr(cl.expr)
-		fc.assume(st.pc, g)
+		if os.Getenv("GOVC_TRACE") != "" && strings.Contains(ct.key, os.Getenv("GOVC_TRACE")) {
+			fmt.Fprintf(os.Stderr, "TRACE %s in %s: ensures %q pc=%v guard=%v nassump=%d\n", ct.key, fr.oname(), cl.text, st.pc == False, guard == True, len(fc.assumps))
+		}
+		fc.assume(st.pc, Implies(guard, g))
 	}
 	return res
+}
+
+func sharesID(a, b []string) bool {
+	for _, x := range a {
+		for _, y := range b {
+			if x == y {
+				return true
+			}
+		}
+	}
+	return false
 }
 
 // havocAssigns forgets exactly the locations named by the assigns clause.
